@@ -56,6 +56,25 @@ type FormPage struct {
 	N    int
 }
 
+// data behind a NON-EMPTY interface type (a struct field, slice element or map value declared as Shape): by value and by pointer
+type Shape interface{ Area() int }
+
+type Rect struct {
+	Label string
+	W, H  int
+}
+
+func (r Rect) Area() int { return r.W * r.H }
+
+type Scene struct {
+	Main   Shape
+	Boxed  Shape // holds a *Rect
+	None   Shape // nil interface
+	Shapes []Shape
+	ByName map[string]Shape
+	Any    interface{}
+}
+
 func twinA(title string, n int) interface{} {
 	type Product struct {
 		Title string
@@ -144,6 +163,10 @@ func buildGo(d interface{}) interface{} {
 			return &v
 		}
 		return v
+	case "scene":
+		rc := Rect{Label: m["label"].(string), W: int(m["w"].(float64)), H: int(m["h"].(float64))}
+		r2 := Rect{Label: "second", W: 2, H: 5}
+		return Scene{Main: rc, Boxed: &rc, Shapes: []Shape{rc, r2, &r2}, ByName: map[string]Shape{"r": rc, "p": &r2}, Any: rc}
 	case "twin":
 		// two DIFFERENT struct types with the same printed name (function-local types called Product)
 		if m["which"] == "A" {
@@ -698,6 +721,19 @@ func genC11(r *Rng, n int, tier string, emit func(Case)) {
 			nilIn := J{"k": "map", "entries": J{"last": J{"k": "verr", "nil": true}, "n": J{"k": "int", "v": 1}}}
 			emit(Case{"kind": "gopath", "val": nilIn, "path": []interface{}{J{"f": "last"}}, "absent": true, "bucket": "error-typed", "plen": 1})
 			emit(Case{"kind": "gopath", "val": nilIn, "path": []interface{}{J{"f": "last"}, J{"f": "field"}}, "absent": true, "bucket": "error-typed", "plen": 2})
+		}
+		if i%40 == 31 {
+			// struct values and pointers behind a non-empty interface type, in a field, a slice, a map, next to the same value behind interface{}
+			sc := J{"k": "scene", "label": []string{"rect", "<r>", ""}[g.r.Intn(3)], "w": g.r.Range(1, 9), "h": g.r.Range(1, 9)}
+			f := func(n string) J { return J{"f": n} }
+			for _, p := range [][]interface{}{{f("main"), f("label")}, {f("main"), f("w")}, {f("main"), J{"m": "area"}}, {f("boxed"), f("label")}, {f("boxed"), f("h")},
+				{f("boxed"), J{"m": "area"}}, {f("shapes"), J{"i": 0}, f("label")}, {f("shapes"), J{"i": 1}, f("h")}, {f("shapes"), J{"i": 2}, f("label")},
+				{f("shapes"), J{"i": 1}, J{"m": "area"}}, {f("byName"), f("r"), f("label")}, {f("byName"), J{"k": "p"}, f("w")}, {f("any"), f("label")}, {f("any"), J{"m": "area"}}} {
+				emit(Case{"kind": "gopath", "val": sc, "path": p, "absent": false, "bucket": "behind-interface", "plen": len(p)})
+			}
+			for _, p := range [][]interface{}{{f("none")}, {f("none"), f("label")}, {f("main"), f("nope")}, {f("shapes"), J{"i": 3}, f("label")}, {f("byName"), f("q"), f("label")}} {
+				emit(Case{"kind": "gopath", "val": sc, "path": p, "absent": true, "bucket": "behind-interface", "plen": len(p)})
+			}
 		}
 		if i%40 == 7 {
 			// two struct types with the same printed name, one after the other in the same process
